@@ -34,7 +34,8 @@ func TestMain(m *testing.M) {
 			"Leg 2 (real time, configuration sweep threshold ∈ {1,3,10} × interval ∈ {50 ms, 200 ms}): exactly threshold writes, and threshold+2 writes inside one interval, must each be followed by an automatic snapshot (LASTSAVE set and a restore reproduces the dataset) within 20 intervals; a miss is reported as inconclusive unless it repeats on two fresh servers. "+
 			"A case is one history; non-trivial = the snapshotted dataset has ≥ 2 value types or ≥ 2 databases or a deadline, and is restored; distinct = FNV-64 of the history.",
 		"snapshots taken while writers are active: separate leg (TestConcurrentWriters) — writers keep pairs of keys of every type in step (a-key updated, then z-key, fillers in between; MSET pairs) while SAVE runs 2–5 times; every snapshot is restored into a fresh server and must satisfy value(a) − value(z) ∈ {0,1} for every pair",
-		"two snapshots in one virtual millisecond are never generated: snapshot directories are named by the millisecond and no running clock can produce that")
+		"two snapshots in one virtual millisecond are never generated: snapshot directories are named by the millisecond and no running clock can produce that",
+		"also generated: SAVE without a preceding read (expected content = last recorded dataset minus keys past their deadline), automatic-snapshot sweep with writes in 1–3 groups or right after a manual SAVE, and 2–5 snapshots taken while 1–2 writers keep pairs of keys of every type in step (each restored and checked for being one instant)")
 	common.Main(m, rec)
 }
 
